@@ -11,7 +11,7 @@ from __future__ import annotations
 
 import ast
 
-from mlmverif.core import (AnalysisError, Ctx, FuncInfo, is_self_attr, norm,
+from mlmverif.core import (kwarg, AnalysisError, Ctx, FuncInfo, is_self_attr, norm,
                            unparse, walk_no_nested)
 from mlmverif.sym import (Cases, Obj, RF, SymEval, SymUnsupported,
                           eval_reference, values_equal)
@@ -177,7 +177,7 @@ STATS = [
 
 def run(ctx: Ctx):
   st = {}
-  for r in (r1, r2, r3, r4, r5, r6, r7, r9):
+  for r in (r1, r2, r3, r4, r5, r6, r7, r9, r10):
     ctx.guard(r, st)
   from mlmverif.props import c11
   from mlmverif.props._agg import model as aggmodel
@@ -888,12 +888,62 @@ def r9(ctx: Ctx, st):
   ctx.floor(rule, 1)
 
 
+def r10(ctx: Ctx, st):
+  rule = 'R-C07-10'
+  ctx.rule(rule, 'macro averaging reduces the CLASS axis for every layout:'
+           ' _TopKConfusionMatrix inherits derive_metric and stacks its counts'
+           ' per k in front (built from zip(*[(k, tp, tn, fp, fn), ...]): K x C'
+           ' for per-class counts), while the plain matrix is C — the class'
+           ' axis is the LAST one in both, so the macro branch must take'
+           ' np.mean(..., axis=-1); axis=0 averages over k for top-k metrics'
+           ' and returns one value per class instead of one per k')
+  repo = ctx.repo
+  base = repo.cls(CLS, '_ConfusionMatrix')
+  dm = base.methods.get('derive_metric')
+  if dm is None:
+    raise AnalysisError(f'{rule}: _ConfusionMatrix.derive_metric not found')
+  stacked = []
+  for ci in repo.subclasses(base):
+    if 'derive_metric' in ci.methods:
+      continue
+    # constructed from transposed per-k tuples somewhere in the module
+    for fi in repo.all_functions():
+      if fi.module is not base.module:
+        continue
+      for c in ast.walk(fi.node):
+        if isinstance(c, ast.Call) and unparse(c.func) == ci.name and any(
+            isinstance(a, ast.Starred) and 'zip(*' in unparse(a.value) for a in c.args):
+          stacked.append((ci, c))
+  means = [c for c in ast.walk(dm.node) if isinstance(c, ast.Call) and unparse(c.func) in ('np.mean', 'numpy.mean', 'np.nanmean')]
+  if not means:
+    raise AnalysisError(f'{rule}: the macro mean was not found in derive_metric')
+  n = 0
+  for c in means:
+    n += 1
+    ax = kwarg(c, 'axis') if kwarg(c, 'axis') is not None else (c.args[1] if len(c.args) > 1 else None)
+    axv = unparse(ax) if ax is not None else None
+    if not stacked:
+      ctx.ok(rule, dm, f'no stacked subclass inherits derive_metric (axis={axv})', c)
+    elif axv == '-1':
+      ctx.ok(rule, dm, f'macro mean over the last (class) axis; stacked subclass {stacked[0][0].name}', c)
+    else:
+      ctx.fail(rule, dm, '_ConfusionMatrix.derive_metric: macro = np.mean(result, axis=-1)',
+               f'the macro average is `{unparse(c)}` but {stacked[0][0].name} (built from'
+               f' `{unparse(stacked[0][1])[:50]}`) puts the k axis in front of the class'
+               ' axis: for top-k metrics with average=macro the mean is taken over'
+               ' k and one value per class is returned instead of one per k',
+               node=c)
+  ctx.floor(rule, 1, n)
+
+
 from mlmverif.selfcheck import B, OK  # noqa: E402
 
 _C = 'aggregates/classification.py'
 _T = 'aggregates/retrieval.py'
 _MC = 'metrics/classification.py'
 VARIANTS = [
+    B('revert-macro-mean-axis', 'aggregates/classification.py',
+      '      return np.mean(result, axis=-1)', '      return np.mean(result, axis=0)', 'R-C07-10'),
     B('safe-divide-with-tolerance', 'utils/math_utils.py',
       'where=(b != 0)', 'where=~np.isclose(b, 0)', 'R-C07-9'),
     B('safe-divide-uninitialised-out', 'utils/math_utils.py',
